@@ -86,6 +86,29 @@ pub(crate) mod thread {
         Builder::new().spawn(f).expect("spawn")
     }
 
+    #[allow(dead_code)]
+    pub(crate) fn yield_now() {
+        if sim() {
+            shuttle::thread::yield_now();
+        } else {
+            std::thread::yield_now()
+        }
+    }
+
+    #[allow(dead_code)]
+    impl<T> JoinHandle<T> {
+        pub(crate) fn is_finished(&self) -> bool {
+            match self {
+                JoinHandle::Std(h) => h.is_finished(),
+                // shuttle has no is_finished: a scheduling point, then "not yet"
+                JoinHandle::Sh(_) => {
+                    shuttle::thread::yield_now();
+                    false
+                }
+            }
+        }
+    }
+
     /// Simulated: the sleep ends whenever the scheduler next runs this
     /// thread (a timer may fire between any two steps of any other thread).
     pub(crate) fn sleep(d: Duration) {
@@ -182,6 +205,17 @@ pub(crate) mod mpsc {
         }
     }
 
+    #[allow(dead_code)]
+    impl<T> Receiver<T> {
+        /// Blocking iterator, as std's `Receiver::iter`.
+        pub(crate) fn iter(&self) -> impl Iterator<Item = T> + '_ {
+            std::iter::from_fn(move || self.recv().ok())
+        }
+        pub(crate) fn try_iter(&self) -> impl Iterator<Item = T> + '_ {
+            std::iter::from_fn(move || self.try_recv().ok())
+        }
+    }
+
     pub(crate) fn channel<T>() -> (Sender<T>, Receiver<T>) {
         if sim() {
             let (tx, rx) = shuttle::sync::mpsc::channel();
@@ -208,6 +242,9 @@ pub(crate) mod net {
         fn read(&self, buf: &mut [u8]) -> io::Result<usize>;
         fn write(&self, buf: &[u8]) -> io::Result<usize>;
         fn flush(&self) -> io::Result<()>;
+        fn shutdown(&self, _how: std::net::Shutdown) -> io::Result<()> {
+            Ok(())
+        }
     }
 
     pub(crate) enum TcpStream {
@@ -254,6 +291,78 @@ pub(crate) mod net {
         }
     }
 
+    // std implements Read and Write for `&TcpStream` as well
+    impl Read for &TcpStream {
+        fn read(&mut self, buf: &mut [u8]) -> io::Result<usize> {
+            match self {
+                TcpStream::Std(s) => (&*s).read(buf),
+                TcpStream::Sim(e) => e.read(buf),
+            }
+        }
+    }
+
+    impl Write for &TcpStream {
+        fn write(&mut self, buf: &[u8]) -> io::Result<usize> {
+            match self {
+                TcpStream::Std(s) => (&*s).write(buf),
+                TcpStream::Sim(e) => e.write(buf),
+            }
+        }
+        fn flush(&mut self) -> io::Result<()> {
+            match self {
+                TcpStream::Std(s) => (&*s).flush(),
+                TcpStream::Sim(e) => e.flush(),
+            }
+        }
+    }
+
+    // The rest of std::net::TcpStream's everyday surface, so that a changed tree
+    // that uses it still builds with the guard on.  On a simulated endpoint the
+    // socket options are accepted and ignored (time-outs: a simulated read never
+    // times out; `shutdown` is reported to the endpoint).
+    #[allow(dead_code)]
+    impl TcpStream {
+        pub(crate) fn connect<A: std::net::ToSocketAddrs>(addr: A) -> io::Result<TcpStream> {
+            std::net::TcpStream::connect(addr).map(TcpStream::Std)
+        }
+        pub(crate) fn local_addr(&self) -> io::Result<SocketAddr> {
+            match self {
+                TcpStream::Std(s) => s.local_addr(),
+                TcpStream::Sim(_) => Ok(SocketAddr::from(([127, 0, 0, 1], 2))),
+            }
+        }
+        pub(crate) fn shutdown(&self, how: std::net::Shutdown) -> io::Result<()> {
+            match self {
+                TcpStream::Std(s) => s.shutdown(how),
+                TcpStream::Sim(e) => e.shutdown(how),
+            }
+        }
+        pub(crate) fn set_read_timeout(&self, d: Option<std::time::Duration>) -> io::Result<()> {
+            match self {
+                TcpStream::Std(s) => s.set_read_timeout(d),
+                TcpStream::Sim(_) => Ok(()),
+            }
+        }
+        pub(crate) fn set_write_timeout(&self, d: Option<std::time::Duration>) -> io::Result<()> {
+            match self {
+                TcpStream::Std(s) => s.set_write_timeout(d),
+                TcpStream::Sim(_) => Ok(()),
+            }
+        }
+        pub(crate) fn set_nodelay(&self, v: bool) -> io::Result<()> {
+            match self {
+                TcpStream::Std(s) => s.set_nodelay(v),
+                TcpStream::Sim(_) => Ok(()),
+            }
+        }
+        pub(crate) fn set_nonblocking(&self, v: bool) -> io::Result<()> {
+            match self {
+                TcpStream::Std(s) => s.set_nonblocking(v),
+                TcpStream::Sim(_) => Ok(()),
+            }
+        }
+    }
+
     /// Only ever a real listener: the accept loop (`run_nrepl`) is not run
     /// inside the simulator.
     pub(crate) struct TcpListener(std::net::TcpListener);
@@ -270,6 +379,10 @@ pub(crate) mod net {
         }
         pub(crate) fn accept(&self) -> io::Result<(TcpStream, SocketAddr)> {
             self.0.accept().map(|(s, a)| (TcpStream::Std(s), a))
+        }
+        #[allow(dead_code)]
+        pub(crate) fn incoming(&self) -> impl Iterator<Item = io::Result<TcpStream>> + '_ {
+            self.0.incoming().map(|r| r.map(TcpStream::Std))
         }
     }
 }
